@@ -276,6 +276,14 @@ def encode_module(m, **kw):
 
 # ---------------------------------------------------------------------------------------------------------
 # 5.5 section walker: checks that every size / count written in front of something equals what follows
+def _concrete(b):
+    """structure bytes (section ids, sizes, counts) are functions of the module SHAPE and of the LEB lengths on the
+    path; one that still depends on an immediate's VALUE is not a size of what follows"""
+    if not isinstance(b, int):
+        raise Malformed("section id / size / count byte depends on the value of an immediate")
+    return b
+
+
 class _Cur:
     def __init__(self, bs, pos=0, end=None):
         self.bs = bs
@@ -294,7 +302,7 @@ class _Cur:
         v = 0
         n = 0
         while True:
-            b = self.byte()
+            b = _concrete(self.byte())
             v = v | ((b & 0x7F) << (7 * n))
             n += 1
             if (b & 0x80) == 0:
@@ -325,9 +333,8 @@ def walk(bs, expect_counts=None, strict_order=True):
     canon = True
     try:
         while cur.pos < cur.end:
-            sid = int(cur.byte())
+            sid = _concrete(cur.byte())
             size, _n, c = cur.u32()
-            size = int(size)
             canon = canon and bool(c)
             start = cur.pos
             if start + size > cur.end:
@@ -337,13 +344,12 @@ def walk(bs, expect_counts=None, strict_order=True):
             if sid in (1, 2, 3, 4, 5, 6, 7, 9, 10, 11):
                 sub = _Cur(bs, start, start + size)
                 count, _n, c = sub.u32()
-                count = int(count)
                 canon = canon and bool(c)
                 if sid == 10:
                     for _ in range(count):
                         bsz, _n, c = sub.u32()
                         canon = canon and bool(c)
-                        sub.pos += int(bsz)
+                        sub.pos += bsz
                         if sub.pos > sub.end:
                             raise Malformed("function body exceeds code section")
                     chk["code-bodies-tile-section"] = sub.pos == sub.end
